@@ -143,7 +143,7 @@ import (
 // runs consensus/chain.NewBlockGenerator(hub, ctx, bi, bs, txOp, false).GenerateBlock() where hub
 // answers MemPoolGet with txs and txOp = exec wrapped so that onTx sees every outcome.
 var VerifDetermGenerate func(bi *types.BlockHeaderInfo, bs *state.BlockState, exec TxExecFn,
-	txs []types.Transaction, onTx func(tx types.Transaction, err error)) (*types.Block, error)
+	txs []types.Transaction, onTx func(tx types.Transaction, err error), deadline *int) (*types.Block, error)
 
 // ---------------------------------------------------------------- input
 
@@ -170,6 +170,10 @@ type determTx struct {
 type determBlock struct {
 	Ts  int64      `json:"ts"`
 	Txs []determTx `json:"txs"`
+	// block-generation deadline (the context GatherTXs consults in checkBGTimeout, tx.go:140-158):
+	// nil = never; -1 = already expired when gathering starts; k >= 0 = expires WHILE candidate k
+	// (position in the list of candidates handed to GatherTXs) is executing
+	Deadline *int `json:"deadline"`
 }
 
 type determCase struct {
@@ -668,15 +672,22 @@ type determProduced struct {
 }
 
 // mirrorGather is choice (b): a copy of consensus/chain GatherTXs (tx.go:159-219) +
-// GenerateBlock (block.go:135-150) without the timeout / size-limit branches, which cannot
-// trigger here (background context, no VM, small blocks).
+// GenerateBlock (block.go:135-150) without the size-limit branch (small blocks); the block
+// deadline is honoured where checkBGTimeout is composed: before the transaction.
 func mirrorGather(bi *types.BlockHeaderInfo, bs *state.BlockState, exec TxExecFn,
-	txIn []types.Transaction, onTx func(tx types.Transaction, err error)) (*types.Block, error) {
+	txIn []types.Transaction, onTx func(tx types.Transaction, err error), deadline *int) (*types.Block, error) {
 	InAddBlock <- struct{}{}        // tx.go:121 LockNonblock
 	defer func() { <-InAddBlock }() // tx.go:124
 	defer contract.CloseDatabase()  // tx.go:136
 	txRes := make([]types.Transaction, 0, len(txIn))
-	for _, tx := range txIn { // tx.go:162
+	expired := deadline != nil && *deadline < 0
+	for k, tx := range txIn { // tx.go:162
+		if expired { // tx.go:160,164: checkBGTimeout runs BEFORE the tx; ErrTimeout ends the loop (tx.go:167-170)
+			break
+		}
+		if deadline != nil && *deadline == k {
+			expired = true
+		}
 		err := exec(bs, tx) // tx.go:164 (op = checkBGTimeout + txOp)
 		onTx(tx, err)
 		if err != nil { // tx.go:191-197 "skip error tx"
@@ -710,7 +721,7 @@ func determGatherName() string {
 // produceOn builds a block on top of prev from the candidate txs exactly like
 // consensus/impl/dpos BlockFactory.generateBlock (blockfactory.go:237-252).  Nothing is
 // connected; the caller decides.
-func (n *determNode) produceOn(prev *types.Block, ts int64, cand []*types.Tx) (res *determProduced) {
+func (n *determNode) produceOn(prev *types.Block, ts int64, cand []*types.Tx, deadline *int) (res *determProduced) {
 	res = &determProduced{included: []int{}, skipped: []determSkip{}}
 	defer func() {
 		// blockfactory.go:228-235: generateBlock recovers panics
@@ -755,7 +766,7 @@ func (n *determNode) produceOn(prev *types.Block, ts int64, cand []*types.Tx) (r
 	if determGatherName() == "real" {
 		gen = VerifDetermGenerate
 	}
-	blk, err := gen(bi, bs, exec, txIn, onTx)
+	blk, err := gen(bi, bs, exec, txIn, onTx, deadline)
 	if err != nil {
 		res.err = err.Error()
 		return
@@ -946,7 +957,7 @@ func determProduce(c *determCase) *determOut {
 			out.Blocks = append(out.Blocks, o)
 			break
 		}
-		p := n.produceOn(prev, b.Ts, cand)
+		p := n.produceOn(prev, b.Ts, cand, b.Deadline)
 		o.Included = []int{}
 		o.Skipped = bad
 		for _, i := range p.included {
@@ -1037,7 +1048,7 @@ func determValidateOnce(c *determCase, blocks []*types.Block) (*determOut, []det
 				for _, tx := range blk.GetBody().GetTxs() {
 					txs = append(txs, proto.Clone(tx).(*types.Tx))
 				}
-				p := n.produceOn(prev, h.GetTimestamp(), txs)
+				p := n.produceOn(prev, h.GetTimestamp(), txs, nil)
 				g.Included, g.Skipped, g.Err = len(p.included), p.skipped, p.err
 				if p.block != nil {
 					g.StateRoot = hx(p.block.GetHeader().GetBlocksRootHash())
